@@ -15,7 +15,7 @@ TECHNIQUE = (
     "pair of gaps of a short text x all span tuples x {skip, wrap}; lxml judges well-formedness and text content"
 )
 RULE = (
-    "sources = all element trees with <= 2 (quick) / 3 (thorough) elements over tags {i,b,p} (and, for <= 2 elements, {I,em,s}) (nested, sequential, empty); long: a 19-letter text with element boundaries and span endpoints on a 10-point grid (style-tag tolerance of 10 characters) "
+    "sources = all element trees with <= 2 (quick) / 3 (thorough) elements over tags {i,b,p} (and, for <= 2 elements, {I,em,s}) (nested, sequential, empty); long: a 30-character text with element boundaries and span endpoints on a 10-point grid (style-tag tolerance of 10 characters) "
     "at all gap positions of 'wxyz' (thorough also 'wxyzu'), de-duplicated by serialisation; spans = all ordered tuples of "
     "<= 2 spans (empty included); before/after = <a>/</a>. non-trivial = source contains >= 1 tag strictly inside or at the "
     "edge of a requested non-empty span."
@@ -73,7 +73,7 @@ def replay(case):
     return [{"msg": f"{lab}: {det} :: {case}", "label": lab} for lab, det in res]
 
 
-LONG_PLAIN = "cdfghjklnoqrtuvwxyz"  # 19 distinct letters: an element can close more than 10 characters after a span ends
+LONG_PLAIN = "ABCDEFGHIJKLMNOPQRSTUVWXYZ0123"  # 30 distinct characters: an element can close (open) far more than 10 characters after (before) a span
 LONG_TAGS = ["i", "em", "p"]
 
 
@@ -81,7 +81,7 @@ def long_cases(max_el):
     """(source, span tuple): every tree of <= max_el elements over the long text whose element boundaries lie on a coarse
     grid x every single span and every pair of spans with endpoints on the grid."""
     N = len(LONG_PLAIN)
-    grid = [0, 1, 2, 3, 9, 15, 16, 17, N - 1, N]
+    grid = [0, 1, 2, 3, 8, 15, 16, N - 2, N - 1, N]
     seen = set()
     spans = [(a, b) for a in grid for b in grid if a <= b]
     sets = [(sp,) for sp in spans] + [(x, y) for x in spans for y in spans]
